@@ -5,13 +5,13 @@ it is the only place of the model that reads `reorder`. -/
 namespace Typstyle
 
 /-- T19.1: with reordering off every import keeps its source order. -/
-theorem C19_off_keeps_order (cfg : Config) (nodes : List ANode) (h : cfg.reorder = false) :
+theorem C19_off_keeps_order (cfg : PConfig) (nodes : List ANode) (h : cfg.reorder = false) :
     importOrder cfg nodes = nodes := by
   simp [importOrder, h]
 
 /-- T19.2a: whatever the setting, the items handed to the printer are a permutation of the
 source's items — nothing is added, dropped or duplicated. -/
-theorem C19_always_a_permutation (cfg : Config) (nodes : List ANode) : (importOrder cfg nodes).Perm nodes := by
+theorem C19_always_a_permutation (cfg : PConfig) (nodes : List ANode) : (importOrder cfg nodes).Perm nodes := by
   unfold importOrder
   split
   · exact stableSort_perm _ _
@@ -19,13 +19,13 @@ theorem C19_always_a_permutation (cfg : Config) (nodes : List ANode) : (importOr
 
 /-- T19.2b: with reordering on, and no comment and no name bound twice, the items are sorted by
 their source text (code-point order = byte order of valid UTF-8). -/
-theorem C19_on_sorted (cfg : Config) (nodes : List ANode) (h : cfg.reorder = true) (hs : importSortable nodes = true) :
+theorem C19_on_sorted (cfg : PConfig) (nodes : List ANode) (h : cfg.reorder = true) (hs : importSortable nodes = true) :
     SortedBy ANode.intoText (importOrder cfg nodes) := by
   simp only [importOrder, h, hs, Bool.and_self, if_true]
   exact stableSort_sorted _ _
 
 /-- T19.2c: an import that contains a comment keeps its order, reordering on or off. -/
-theorem C19_comment_keeps_order (cfg : Config) (nodes : List ANode) (c : ANode) (hc : c ∈ nodes)
+theorem C19_comment_keeps_order (cfg : PConfig) (nodes : List ANode) (c : ANode) (hc : c ∈ nodes)
     (hk : isCommentKind c.kind = true) : importOrder cfg nodes = nodes := by
   have : importSortable nodes = false := by
     unfold importSortable
@@ -63,7 +63,7 @@ theorem noDupNames_sound (nodes : List ANode) (seen : List String) (h : noDupNam
         · intro m hm hms; exact (h2 m hm) (by simp [hms])
 
 /-- T19.2d: an import that binds the same name twice keeps its order, reordering on or off. -/
-theorem C19_duplicate_keeps_order (cfg : Config) (nodes : List ANode)
+theorem C19_duplicate_keeps_order (cfg : PConfig) (nodes : List ANode)
     (hd : ¬ (nodes.filterMap importBoundName).Nodup) : importOrder cfg nodes = nodes := by
   have : importSortable nodes = false := by
     unfold importSortable
@@ -73,7 +73,7 @@ theorem C19_duplicate_keeps_order (cfg : Config) (nodes : List ANode)
   simp [importOrder, this]
 
 /-- Sorting an already sorted import changes nothing (a second run with reordering on is a no-op on the order). -/
-theorem C19_sorted_permutation_is_unique (cfg : Config) (nodes : List ANode) :
+theorem C19_sorted_permutation_is_unique (cfg : PConfig) (nodes : List ANode) :
     (importOrder cfg nodes).length = nodes.length := (C19_always_a_permutation cfg nodes).length_eq
 
 end Typstyle
